@@ -11,7 +11,7 @@ use neurons::tensor::Tensor;
 
 pub fn meta(_ctx: &Ctx) -> Meta {
     Meta {
-        rule: "data-set sizes M in {0 (predict_batch only),1,2,3,63,64,65,127,128,129,130,200} (and 256, 257, 300, 1025 for a thin slice) (below, at, above the internal chunk size 64, not multiples of it) x heads {soft-max(3), linear(1), linear(3), sigmoid(2)} x bodies {dense, conv+dense, conv+pool+dense, dense with a multiplicative skip connection, dense with a loop connection} x 7 objectives x tolerances {1e-6,0.1,0.5,10}; inputs pairwise distinct; targets placed clearly inside / outside the tolerance per component, arg-max unique. Oracles: predict_batch(xs)[i] bit-equal predict(xs[i]) in input order, length M; predict = last activation of forward; validate loss = mean of objective.loss(predict(x),t); accuracy by the three documented rules; validate and predict_batch repeated inside pools of 1 and 2 workers. A state is one (M, head, body, objective, tolerance) configuration; transitions = predictions made; non-trivial = M >= 2".into(),
+        rule: "data-set sizes M in {0 (predict_batch only),1,2,3,63,64,65,127,128,129,130,200} (and 256, 257, 300, 1025 for a thin slice) (below, at, above the internal chunk size 64, not multiples of it) x heads {soft-max(3), linear(1), linear(3), sigmoid(2)} x bodies {dense, conv+dense, conv+pool+dense, dense with a multiplicative skip connection, dense with a loop connection} x 7 objectives x tolerances {1e-6,0.1,0.5,10}; inputs pairwise distinct; targets placed clearly inside / outside the tolerance per component, arg-max unique; plus soft-max heads whose last two units are copies (tied maxima): the accuracy must be the mean of the single-sample verdicts, each 0 or 1, and lie between the certain and the possible agreements (the statement does not fix which of several maxima counts). Oracles: predict_batch(xs)[i] bit-equal predict(xs[i]) in input order, length M; predict = last activation of forward; validate loss = mean of objective.loss(predict(x),t); accuracy by the three documented rules; validate and predict_batch repeated inside pools of 1 and 2 workers. A state is one (M, head, body, objective, tolerance) configuration; transitions = predictions made; non-trivial = M >= 2".into(),
         bound: "M <= 200; complete product".into(),
         exhaustive: true,
         assumptions: vec!["the mean is compared with tolerance (M+2)*eps*mean|term| (any summation order)".into()],
@@ -76,7 +76,21 @@ pub fn check(seed: u64, case: &Kv, rep: &mut Report) {
     }
     let shapes = ref_shapes(&net).unwrap();
     let key = format!("{}/{}", net.name(), m);
-    let params: Vec<P<f32>> = params_for(&net, &shapes, Valuation::Generic, seed, &key).iter().map(|p| p.map(&|v| v * 0.5)).collect();
+    let mut params: Vec<P<f32>> = params_for(&net, &shapes, Valuation::Generic, seed, &key).iter().map(|p| p.map(&|v| v * 0.5)).collect();
+    // "ties": the last two output units are copies of each other, so their outputs are equal bit for bit in every
+    // prediction (tied maxima for about a third of the inputs)
+    let ties = case.opt("ties").is_some();
+    if ties {
+        let last = params.len() - 1;
+        let n_out = shapes[last].out.count();
+        let n_in = params[last].w[0].len() / n_out;
+        for i in 0..n_in {
+            params[last].w[0][(n_out - 1) * n_in + i] = params[last].w[0][(n_out - 2) * n_in + i];
+        }
+        if let Some(b) = params[last].b.as_mut() {
+            b[n_out - 1] = b[n_out - 2];
+        }
+    }
     let mut lib = match build_with(&net, &shapes, &params) {
         Ok(l) => l,
         Err(e) => {
@@ -160,9 +174,29 @@ pub fn check(seed: u64, case: &Kv, rep: &mut Report) {
     let width = singles[0].len();
     let mut targets: Vec<Tensor> = Vec::new();
     let mut want_acc: Vec<f64> = Vec::new();
+    // with tied maxima "the arg-max" is not unique and the statement does not say which one counts: a sample whose
+    // target class is one of several maxima may score either way (lo / hi bound the accuracy)
+    let (mut lo, mut hi, mut tied) = (0usize, 0usize, 0usize);
     for i in 0..m {
         let p = &singles[i];
-        if softmax {
+        if softmax && ties {
+            let top = p.iter().cloned().fold(f32::MIN, f32::max);
+            let maxima: Vec<usize> = (0..width).filter(|c| p[*c] == top).collect();
+            let idx = r.below(width);
+            let mut t = vec![0.0f32; width];
+            t[idx] = 1.0;
+            targets.push(Tensor::single(t));
+            if maxima.len() > 1 {
+                tied += 1;
+            }
+            if maxima == vec![idx] {
+                lo += 1;
+            }
+            if maxima.contains(&idx) {
+                hi += 1;
+            }
+            want_acc.push(0.0);
+        } else if softmax {
             let am = (0..width).max_by(|a, b| p[*a].partial_cmp(&p[*b]).unwrap()).unwrap();
             let hit = r.below(2) == 0;
             let idx = if hit { am } else { (am + 1 + r.below(width - 1)) % width };
@@ -194,6 +228,38 @@ pub fn check(seed: u64, case: &Kv, rep: &mut Report) {
     let losses: Vec<f64> = (0..m).map(|i| objf.loss(&Tensor::single(singles[i].clone()), &targets[i]).0 as f64).collect();
     let want_loss = losses.iter().sum::<f64>() / m as f64;
     let want_a = want_acc.iter().sum::<f64>() / m as f64;
+    if ties {
+        rep.count("samples_with_tied_maxima", tied as u64);
+        rep.transitions += 2 * m as u64;
+        // the aggregate must equal the mean of the single-sample verdicts (whatever the tie-break is, it is one rule),
+        // and lie between the certain hits and the possible hits
+        let r = guard(|| {
+            let all = lib.validate(&refs, &trefs, tol);
+            let singly: Vec<(f32, f32)> = (0..m).map(|i| lib.validate(&[refs[i]], &[trefs[i]], tol)).collect();
+            (all, singly)
+        });
+        match r {
+            Ok(((loss, acc), singly)) => {
+                let eps = (m as f64 + 2.0) * f32::EPSILON as f64;
+                if singly.iter().any(|s| s.1 != 0.0 && s.1 != 1.0) {
+                    rep.violate("C12 validate accuracy of one soft-max sample is neither 0 nor 1", format!("{:?}", singly.iter().map(|s| s.1).collect::<Vec<_>>()), case);
+                }
+                let mean_single = singly.iter().map(|s| s.1 as f64).sum::<f64>() / m as f64;
+                if (acc as f64 - mean_single).abs() > eps {
+                    rep.violate("C12 validate accuracy (arg-max rule, tied maxima) is not the mean of the per-sample verdicts", format!("validate = {}, mean of single-sample accuracies = {} (M = {})", acc, mean_single, m), case);
+                }
+                if (acc as f64) < lo as f64 / m as f64 - eps || (acc as f64) > hi as f64 / m as f64 + eps {
+                    rep.violate("C12 validate accuracy (arg-max rule, tied maxima)", format!("validate = {}, but between {} and {} of {} samples agree", acc, lo, hi, m), case);
+                }
+                let mean_abs = losses.iter().map(|l| l.abs()).sum::<f64>() / m as f64;
+                if !((loss as f64 - want_loss).abs() <= eps * mean_abs + 1e-30) {
+                    rep.violate("C12 validate loss is not the mean per-sample loss", format!("validate = {:e}, mean of {} per-sample losses = {:e}", loss, m, want_loss), case);
+                }
+            }
+            Err(e) => rep.violate("C12 validate panics", crate::util::first_line(&e), case),
+        }
+        return;
+    }
     // the same aggregation inside pools of one and two workers (chunking must not depend on the pool)
     for t in [1usize, 2] {
         let pool = rayon::ThreadPoolBuilder::new().num_threads(t).build().expect("pool");
@@ -255,6 +321,14 @@ pub fn cases(thorough: bool) -> Vec<Kv> {
                         out.push(Kv::new().put("m", m).put("head", head).put("body", body).put("obj", o.name()).put("tol", tol));
                     }
                 }
+            }
+        }
+    }
+    // tied maxima in the soft-max head
+    for m in [1usize, 2, 3, 63, 65, 130] {
+        for body in ["dense", "conv", "skip"] {
+            for o in OBJ7 {
+                out.push(Kv::new().put("m", m).put("head", "softmax3").put("body", body).put("obj", o.name()).put("tol", 0.1).put("ties", 1));
             }
         }
     }
